@@ -22,11 +22,11 @@ VERIF = os.path.dirname(os.path.dirname(os.path.dirname(os.path.abspath(__file__
 # repairs present in /repo (identifiers of spec/Savable.tla: FL1 recorded loader read from the user block, FL2 recorded
 # loader instantiated, FL3 nested savables saved with the save context, FFC cancelled futures can be saved,
 # FH1 the classmethod Savable.auto_persist gives a class its own copy of an inherited set before adding to it)
-FIXES = ['FL1', 'FL2', 'FL3', 'FFC']      # repaired in /repo: d4b788d (FL1, FL2), 8989551 (FL3), 79c2991 (FFC)
+FIXES = ['FL1', 'FL2', 'FL3', 'FFC', 'FH1']      # repaired in /repo: d4b788d (FL1, FL2), 8989551 (FL3), 79c2991 (FFC), FH1 (persist() hook leak)
 ALL_FIXES = ['FL1', 'FL2', 'FL3', 'FFC', 'FH1']
 DEVIATIONS = ['D19a', 'D19b', 'D19c', 'D19d']
 KINDS = ['value', 'none', 'method', 'tuple', 'sav1', 'sav2', 'futP', 'futR', 'futT', 'futE', 'futC']
-KINDS9 = ['value', 'none', 'method', 'sav1', 'sav2', 'futP', 'futR', 'futE', 'futC']
+KINDS6 = ['value', 'method', 'tuple', 'sav2', 'futT', 'futC']      # for the largest chains (members are saved independently of each other)
 # family A: decorator-declared chains x every member kind x loader configurations x unknown class names
 FAM_A = dict(kinds=KINDS, loaders=None, unknowns=None, ways=['deco'], orders=[])
 # family B: how members are declared (decorator | persist() hook) x which other class of the chain was used first x copied values
@@ -244,13 +244,13 @@ def run(tier, seed):
         replays = [dict(name='MC_C19_A_ab3s', names='ab', maxchain=3, only_chains=ca, verdict=(invs, known), **FAM_A),
                    dict(name='MC_C19_B_ab3s', names='ab', maxchain=3, only_chains=cb, verdict=(invs, known), **FAM_B)]
     else:
-        verdict = [dict(name='MC_C19_A_abc3_k9', names='abc', maxchain=3, **dict(FAM_A, kinds=KINDS9)),
+        verdict = [dict(name='MC_C19_A_abc3_k6', names='abc', maxchain=3, **dict(FAM_A, kinds=KINDS6)),
                    dict(name='MC_C19_A_abc2', names='abc', maxchain=2, **FAM_A),
                    dict(name='MC_C19_A_ab3', names='ab', maxchain=3, **FAM_A),
                    dict(name='MC_C19_B_abc3', names='abc', maxchain=3, **FAM_B)]
         replays = [dict(name='MC_C19_dump_A_ab3', names='ab', maxchain=3, **FAM_A),
-                   dict(name='MC_C19_dump_A_abc2', names='abc', maxchain=2, **FAM_A),
-                   dict(name='MC_C19_dump_A_abc3s', names='abc', maxchain=3, only_chains=[chain_tla(c) for c in rng.sample(all_chains('abc', 3, ['deco']), 16)], **FAM_A),
+                   dict(name='MC_C19_dump_A_abc2s', names='abc', maxchain=2, only_chains=sample_chains(rng, 'abc', 2, ['deco'], 30), **FAM_A),
+                   dict(name='MC_C19_dump_A_abc3s', names='abc', maxchain=3, only_chains=[chain_tla(c) for c in rng.sample(all_chains('abc', 3, ['deco']), 12)], **FAM_A),
                    dict(name='MC_C19_dump_B_ab3', names='ab', maxchain=3, **FAM_B),
                    dict(name='MC_C19_dump_B_abc3s', names='abc', maxchain=3, only_chains=[chain_tla(c) for c in rng.sample(all_chains('abc', 3, ['deco', 'hook']), 400)], **FAM_B)]
     violations = 0
@@ -387,8 +387,9 @@ def run(tier, seed):
         'the custom loader uses an identifier scheme disjoint from DefaultObjectLoader\'s and raises ValueError for anything it cannot resolve',
         'nested Savables: helper classes N1 (value, method) and N2 (value, N1, resolved future): nesting depth 2',
         'exception objects held by futures are compared by tag, and are not mutated after the save',
-        'thorough: the 3-class x 3-name universe is model-checked completely; executed on the real code are the complete 2-name and '
-        '2-class universes plus all instances of a seeded sample of 3-class chains',
+        'thorough: model-checked completely are 3 classes x 3 names (family A with 6 member kinds, family B), 2 classes x 3 names and '
+        '3 classes x 2 names (family A, all 11 kinds); executed on the real code are the complete two-name universes of both families plus '
+        'all instances of seeded samples of the three-name chains',
     ])
     return 1 if violations else 0
 
